@@ -242,11 +242,15 @@ pub struct Item {
     pub mods: Vec<String>,
     /// further serde arguments, rendered before the others
     pub extra_serde: Vec<String>,
+    /// how the annotation's path is spelled (index into `ANNOTATION_PATHS`)
+    pub annotation_path: usize,
 }
+
+pub const ANNOTATION_PATHS: [&str; 3] = ["typeshare", "typeshare::typeshare", "::typeshare::typeshare"];
 
 impl Item {
     pub fn new(name: &str, kind: IKind) -> Item {
-        Item { name: name.to_string(), annotated: true, rename: None, rename_all: None, generics: vec![], kind, ts_args: vec![], cfgs: vec![], docs: vec![], style: AttrStyle::Separate, mods: vec![], extra_serde: vec![] }
+        Item { name: name.to_string(), annotated: true, rename: None, rename_all: None, generics: vec![], kind, ts_args: vec![], cfgs: vec![], docs: vec![], style: AttrStyle::Separate, mods: vec![], extra_serde: vec![], annotation_path: 0 }
     }
     pub fn strukt(name: &str, fields: Vec<Field>) -> Item {
         Item::new(name, IKind::Struct(fields))
@@ -410,9 +414,9 @@ pub fn render_item(it: &Item, indent: &str, out: &mut String) {
     let ts_attr = if !it.annotated {
         None
     } else if it.ts_args.is_empty() {
-        Some("#[typeshare]".to_string())
+        Some(format!("#[{}]", ANNOTATION_PATHS[it.annotation_path]))
     } else {
-        Some(format!("#[typeshare({})]", it.ts_args.join(", ")))
+        Some(format!("#[{}({})]", ANNOTATION_PATHS[it.annotation_path], it.ts_args.join(", ")))
     };
     if !late {
         if let Some(a) = &ts_attr {
